@@ -757,6 +757,8 @@ def run_spec(world, spec, upto=None):
             out.append(world.build(st['prog'], st.get('versions'), st.get('crash'), fault=st.get('fault')))
         elif st['op'] == 'clean':
             out.append(world.clean())
+        elif st['op'] == 'note' and 'bulk2' in st:
+            out.append(bulk2(world, st))
         elif st['op'] == 'note' and 'bulk' in st:
             N = st['bulk']
             for j in range(N):
@@ -765,3 +767,22 @@ def run_spec(world, spec, upto=None):
                                          for j in range(N)] + ([{'k': 'raise'}] if st['tail'] == 'raise' else [])}
             out.append(world.build(prog, check_ref=False))
     return out
+
+
+def bulk2(world, st):
+    """C02 bulk scenario (also used by replay): N files f00000.. with rotating contents, either foreign ('foreign')
+    or outputs of a committed build that were then modified ('prev'); one build overwrites all of them and then
+    raises / commits.  The backup store changes its directory layout at 128 and 128*128 entries."""
+    N, kind, tail = st['bulk2'], st['kind'], st['tail']
+    keys = ('A', 'B', 'CC')
+    names = ['f%05d' % j for j in range(N)]
+    body = [{'k': 'bf', 'p': p, 'mode': 'ok', 'catch': False, 'ch': []} for p in names]
+    if kind == 'prev':
+        world.build({'level': 0, 'root': body}, check_ref=False)
+    for j, p in enumerate(names):
+        world.mutate(['w', p, keys[j % 3]])
+    prog = {'level': 0, 'root': body + ([{'k': 'raise'}] if tail == 'raise' else [])}
+    world.steps = [dict(st)]
+    r = world.build(prog, check_ref=False)
+    world.steps = [dict(st)]
+    return r
